@@ -78,6 +78,19 @@ def run(tier='quick'):
     sink = strip(vsite.sink)
     tie_args = [strip(a) for a in children(sink)[1:]] if sink.get('kind') == 'CallExpr' else []
     local_ids = None
+    # further columns of the same statement that report the storage class of a version column
+    # (typeof(col)): their locals are fixed to 'integer' for Y1 and varied by Y7
+    type_locals = {}
+    if len(tie_args) == len(cols) and len(cols) > 3 and all(a.get('kind') == 'DeclRefExpr' for a in tie_args):
+        keep = []
+        for c, a in zip(cols, tie_args):
+            m = re.match(r'^typeof \( (schemaversion(?:major|minor|patch)) \)$', c)
+            if m:
+                type_locals[(a.get('referencedDecl') or {}).get('id')] = m.group(1)
+            else:
+                keep.append((c, a))
+        cols = [c for c, a in keep]
+        tie_args = [a for c, a in keep]
     if len(tie_args) == 3 and len(cols) == 3 and all(a.get('kind') == 'DeclRefExpr' for a in tie_args):
         # std::tie(x, y, z) into three locals, from which a `semantic_version v{cast(x), cast(y), cast(z)}`
         # is built: the columns feed the members through the locals
@@ -175,6 +188,8 @@ def run(tier='quick'):
                 if local_ids is not None:
                     by_role = {'maj': a, 'min': b, 'pat': c}
                     env = {lid: by_role[role[cn]] for lid, cn in zip(local_ids, cols)}
+                    for tl in type_locals:
+                        env[tl] = ('integer',)
                 ev = Evaluator(prog, f, hook)
                 outs = ev.run(env)
                 # outcomes before the version is known: precondition failures
@@ -218,6 +233,45 @@ def run(tier='quick'):
                       facts={'triple': t, 'outcomes': sorted(map(str, res)), 'expected': sorted(map(str, want))})
     chk.extra['decision_table_cells'] = ncell
     chk.extra['box'] = {'major': majs, 'minor': mins, 'patch': pats}
+
+    # ---- Y7 storage class of the stored components ------------------------------
+    Y7 = chk.rule('Y7', 'a stored version component that is not an integer (NULL, text, a fraction, a blob) is not a '
+                        'version: the fetch would coerce it (NULL and text to 0, 6.9 to 6), so detect_schema reads the '
+                        'storage class of each component and rejects the library before the version switch', floor=12)
+    by_col = {v: k for k, v in type_locals.items()}
+    some = sorted(expected)[0] if expected else (1, 6, 0)
+    for col in ('schemaversionmajor', 'schemaversionminor', 'schemaversionpatch'):
+        for cls in ('null', 'text', 'real', 'blob'):
+            inst = 'Information.%s stored as %s' % (col, cls)
+            if col not in by_col or local_ids is None:
+                chk.violation(Y7, 'detect_schema|storage class of %s not read' % col, locstr(vsite.node),
+                              '%s: the statement does not select typeof(%s): a %s component is fetched as an integer '
+                              '(NULL / text as 0, a fraction truncated) and the triple is identified as a version it is '
+                              'not' % (inst, col, cls))
+                continue
+            by_role = dict(zip(('maj', 'min', 'pat'), some))
+            env = {lid: by_role[role[cn]] for lid, cn in zip(local_ids, cols)}
+            for tl in type_locals:
+                env[tl] = ('integer',)
+            env[by_col[col]] = (cls,)
+            outs = Evaluator(prog, f, hook).run(env)
+            res = set()
+            for o in outs:
+                if o.kind == 'throw' and o.value.split('::')[-1] == 'database_inconsistency' and \
+                        not any(t[0] == 'case' for t in o.trace):
+                    continue        # precondition: no Information table
+                if o.kind == 'throw':
+                    res.add(('throw', o.value.split('::')[-1]))
+                elif o.kind == 'return':
+                    res.add(('return', getattr(o.value, 'name', repr(o.value))))
+                else:
+                    res.add((o.kind, None))
+            if res == {('throw', 'unsupported_database')}:
+                chk.ok(Y7, inst + ' -> unsupported_database', locstr(vsite.node))
+            else:
+                chk.violation(Y7, 'detect_schema|%s as %s accepted' % (col, cls), locstr(vsite.node),
+                              '%s with the triple %d.%d.%d yields %s, expected unsupported_database' % (
+                                  (inst,) + tuple(some) + (sorted(map(str, res)),)))
 
     # ---- Y2 variant marker ----------------------------------------------------
     _variant(prog, chk, Y2, f)
@@ -503,7 +557,14 @@ def _dispatch(prog, chk, Y4, supported, enum):
                     return Enum(_e, _v)
                 return NotImplemented
             ev = Evaluator(prog, f, hook)
-            outs = ev.run({})
+            env0 = {}
+            if not is_db2:
+                # the legacy branch takes the schema from the storage object it constructs: the detected
+                # enumerator is the `schema` member of that object
+                for d in walk(f.body):
+                    if d.get('kind') == 'VarDecl' and 'engine_storage' in (d.get('type') or ''):
+                        env0[('member', d['id'], 'schema')] = Enum(en, val)
+            outs = ev.run(env0)
             res = set()
             assigned = []
             for o in outs:
@@ -514,10 +575,11 @@ def _dispatch(prog, chk, Y4, supported, enum):
                 else:
                     res.add((o.kind, None))
             if not is_db2:
-                if en != list(enum)[0]:
-                    continue   # legacy path does not consult the hook value
-                want = {('return', 'v1')}
-                inst = 'legacy layout'
+                inst = 'legacy layout, detected %s' % en
+                if val < enum[boundary]:
+                    want = {('return', 'v1')}
+                else:
+                    want = {('throw', 'database_inconsistency')}
             else:
                 inst = 'Database2 layout, detected %s' % en
                 if val >= enum[boundary] and en in supported:
@@ -542,6 +604,33 @@ def _dispatch(prog, chk, Y4, supported, enum):
                                                                            sorted(map(str, want))))
     # out-parameter assigned from the detected schema on every returning path
     _out_param(prog, chk, Y4, f, out_param)
+
+    # --- the library class of the Database2 family loads a Database2 file itself (v2::engine_library{directory}):
+    # it must refuse a triple of the other generation too
+    g = prog.func(NS + 'base_engine_library::load')
+    chk.analysed(g)
+    for en, val in enum.items():
+        def hook2(ev, qn, args, env, node, stmt=False, _e=en, _v=val):
+            if qn == schemas.NS + 'detect_schema':
+                return Enum(_e, _v)
+            return NotImplemented
+        outs = Evaluator(prog, g, hook2).run({})
+        got = set()
+        for o in outs:
+            got.add(('throw', o.value.split('::')[-1]) if o.kind == 'throw' else (o.kind, None))
+        if val < enum[boundary]:
+            want = {('throw', 'database_inconsistency')}
+        elif en in supported:
+            want = {('return', None)}
+        else:
+            want = {('throw', 'unsupported_database')}
+        inst = 'base_engine_library::load, detected %s' % en
+        if got == want:
+            chk.ok(Y4, '%s -> %s' % (inst, sorted(map(str, got))), locstr(g.node), site='libload|' + en)
+        else:
+            chk.violation(Y4, 'base_engine_library::load|%s' % en, locstr(g.node),
+                          '%s yields %s, expected %s: a Database2 file that carries a 1.x triple is handed to the 2.x '
+                          'table layer under a 1.x schema id' % (inst, sorted(map(str, got)), sorted(map(str, want))))
 
     # --- create_database / create_temporary_database route by the boundary
     for name in ('create_database', 'create_temporary_database'):
